@@ -119,7 +119,25 @@ def loadused(ctx, *args):
     ST.apply_state(k2, slots, v2)
     k2.write_config("/m/f")
     k1 = ST.build(tid)
-    ST.apply_state(k1, slots, v1)
+    if ctx.get("stale"):
+        # the instance is "used" by having loaded a file whose default-marked entries carry the first state's values
+        # (stored defaults that differ from the Kconfig defaults, as an older tree version or another tool leaves them)
+        lines = []
+        for sl in slots:
+            v = v1.get(sl.name)
+            if sl.kind == "pick" or v is None:
+                continue
+            lines.append("# default:")
+            if sl.kind == "bool":
+                lines.append("CONFIG_%s=y" % sl.name if v == 2 else "# CONFIG_%s is not set" % sl.name)
+            elif sl.kind == "string":
+                lines.append('CONFIG_%s="%s"' % (sl.name, K._escape(v)))
+            else:
+                lines.append("CONFIG_%s=%s" % (sl.name, v))
+        fs.put("/m/old", "\n".join(lines) + "\n")
+        k1.load_config("/m/old")
+    else:
+        ST.apply_state(k1, slots, v1)
     ST.snapshot(k1)
     k1.load_config("/m/f", replace=True)
     kf = ST.build(tid)
@@ -224,7 +242,7 @@ def jobs(tier, seed, excluded=()):
             free = [x for x in slots if x.name not in fixed]
             out.append(Job("C03", "C03-%s-%s-oneread" % (tid, sl.name), "vk.props.c03", "step", {"tree": tid, "dom": dom.to_json(), "odom": odom.to_json(), "nstate": len(sp), "targets": [t], "reverse": False, "fixed": fixed, "preread": "one"}, list(sp) + [("ok0", "int"), ("ov0", "int"), ("ri", "int")], spre + " and 0 <= ok0 <= 3 and " + vb + " and -1 <= ri < %d" % nitems, timeout=tmo * 2, samples=[_rand_state(rng, free, dom) + [rng.randint(0, 3), 0, rng.randint(-1, nitems - 1)] for _ in range(3)], tree=tid))
     # loads of tool-written files into used instances
-    ltrees = ["T07", "T06", "E_choice_default", "E_setdef_src", "E_choice_member_dep"] if tier == "quick" else ["T01", "T03", "T05", "T06", "T07", "T08", "T12", "T15", "E_choice_default", "E_choice_dep", "E_choice_member_dep", "E_setdef_src", "E_set_src", "E_select"]
+    ltrees = ["T07", "T06", "E_choice_default", "E_setdef_src", "E_choice_member_dep", "E_default_cond", "E_dep"] if tier == "quick" else ["T01", "T03", "T05", "T06", "T07", "T08", "T12", "T15", "E_choice_default", "E_choice_dep", "E_choice_member_dep", "E_setdef_src", "E_set_src", "E_select"]
     for tid in ltrees:
         slots = ST.layout(tid)
         for pi in range(2 if tier == "quick" else 6):
@@ -238,7 +256,7 @@ def jobs(tier, seed, excluded=()):
                 sp2, pre2 = ST.params_for(slots, dom, prefix="w", fixed=p2[0])
             f1 = [sl for sl in slots if sl.name not in p1[0]]
             f2 = [sl for sl in slots if sl.name not in p2[0]]
-            out.append(Job("C03", "C03-%s-loadused-p%d" % (tid, pi), "vk.props.c03", "loadused", {"tree": tid, "dom": dom.to_json(), "nstate": len(sp1), "fixed": p1[0], "fixed2": p2[0]}, sp1 + sp2, pre1 + " and " + pre2, timeout=tmo * 2, samples=[_rand_state(rng, f1, dom) + _rand_state(rng, f2, dom) for _ in range(3)], tree=tid))
+            out.append(Job("C03", "C03-%s-loadused%s-p%d" % (tid, "-stale" if pi % 2 == 1 else "", pi), "vk.props.c03", "loadused", {"tree": tid, "dom": dom.to_json(), "nstate": len(sp1), "fixed": p1[0], "fixed2": p2[0], "stale": pi % 2 == 1}, sp1 + sp2, pre1 + " and " + pre2, timeout=tmo * 2, samples=[_rand_state(rng, f1, dom) + _rand_state(rng, f2, dom) for _ in range(3)], tree=tid))
     return out
 
 
